@@ -27,6 +27,30 @@ def isHopK : Kont K V → Bool
   | .hop _ _ => true
   | _ => false
 
+/-- continuations of `Delete` -/
+def isDelK : Kont K V → Bool
+  | .delTree _ => true
+  | .delRoot _ _ => true
+  | .delLeft _ _ _ _ _ _ => true
+  | .delChild _ _ _ _ _ _ _ => true
+  | .delRight _ _ _ _ _ => true
+  | _ => false
+
+def isDelPark : Park K V → Bool
+  | .want _ k => isDelK k
+  | .yielded k => isDelK k
+  | _ => false
+
+def flowIsHop : Flow K V → Bool
+  | .park p => isHop p
+  | _ => false
+
+/-- a block parks only at a `Lock()` or at a yield -/
+def parkLive : Park K V → Prop
+  | .want _ _ => True
+  | .yielded _ => True
+  | _ => False
+
 /-- `H` contains every mutex the thread holds while it runs continuation `k`: what it held
     when it parked, the mutex it was granted, and its cursor's leaf -/
 def Covers (H : List Lk) (cursor : Option (Option Nat × Int)) (k : Kont K V) : Prop :=
